@@ -672,6 +672,14 @@ package engine
 //@ func BaseServer.Verify(ctx, upgrade)
 //@   modifies *
 
+// the handler returns only after the response has been written: whatever the middleware chain does with the request, the
+// handler then waits for the request context's done channel (closed by the first write of a response)
+//@ func (*server).HandleRequest(ctx)
+//@   props C11
+//@   requires s != nil && s.BaseServer != nil && ctxOK(ctx)
+//@   modifies *
+//@   ensures [C11.handlerwaits] calls(chan.recv) == 1 && arg(chan.recv, 1, ch) == old(ctx.done) && calls(BaseServer.ApplyMiddlewares) == 1 && before(BaseServer.ApplyMiddlewares, 1, chan.recv, 1)
+
 // the continuation of HandleRequest after the middlewares and Verify: rejected requests create no session and
 // disturb none; a request naming a session goes to that session's transport; others handshake
 //@ func (*server).HandleRequest$1(codeMessage, errorContext)
